@@ -1,7 +1,12 @@
 """Archive builders over member lists (reference writers: zipfile, tarfile, vlib.gen.sevenz) incl. hostile forms.
 
-member: {"name": str, "data": bytes|None, "type": "file"|"dir"|"symlink"|"hardlink"|"fifo"|"chardev", "link": str,
-         "encrypted": bool (zip flag bit), "phantom": bool (7z entry without data stream), "declared_size": int (forged)}
+member: {"name": str, "data": bytes|None, "type": "file"|"dir"|"symlink"|"hardlink"|"fifo"|"chardev"|"blockdev", "link": str,
+         "encrypted": bool (zip flag bit), "phantom": bool (7z entry without data stream), "declared_size": int (forged),
+         "attr": int (7z: Windows attribute word written instead of the default 0x10 / 0x20; zip: external_attr)}
+
+TAR layouts come in the three header formats tarfile writes: the plain names ("tar", "tar.gz", ...) are PAX (tarfile's
+default), "<name>+gnu" is GNU tar's default format (magic "ustar  \0", long names through ././@LongLink records),
+"<name>+ustar" the POSIX.1-1988 format (names limited to 100 + 155 bytes: tarfile raises ValueError beyond that).
 """
 from __future__ import annotations
 
@@ -15,6 +20,9 @@ ZIP_LAYOUTS = ["zip-stored", "zip-deflated"]
 TAR_LAYOUTS = ["tar", "tar.gz", "tar.bz2", "tar.xz"]
 SEVENZ_LAYOUTS = [f"7z-{c}-{l}{h}" for c in ("copy", "lzma", "lzma2") for l in ("solid", "per-file", "pairs") for h in ("", "-enchdr")] + ["7z-mixed-per-file"]
 ALL_LAYOUTS = ZIP_LAYOUTS + TAR_LAYOUTS + SEVENZ_LAYOUTS
+TAR_FORMATS = {"pax": tarfile.PAX_FORMAT, "gnu": tarfile.GNU_FORMAT, "ustar": tarfile.USTAR_FORMAT}
+TAR_FORMAT_LAYOUTS = [f"{l}+{f}" for f in ("gnu", "ustar") for l in TAR_LAYOUTS]      # header format x compression
+EXTENDED_LAYOUTS = ALL_LAYOUTS + TAR_FORMAT_LAYOUTS
 EXT = {"zip": ".zip", "tar": ".tar", "tar.gz": ".tar.gz", "tar.bz2": ".tar.bz2", "tar.xz": ".tar.xz", "7z": ".7z"}
 
 
@@ -23,7 +31,12 @@ def family(layout: str) -> str:
         return "zip"
     if layout.startswith("7z"):
         return "7z"
-    return layout
+    return layout.split("+", 1)[0]
+
+
+def tar_format(layout: str) -> str:
+    """Header format of a TAR layout name: "pax" (default), "gnu" or "ustar"."""
+    return layout.split("+", 1)[1] if "+" in layout else "pax"
 
 
 def ext_of(layout: str) -> str:
@@ -36,7 +49,7 @@ def build(layout: str, members: list[dict]) -> bytes:
         return _zip(members, zipfile.ZIP_STORED if layout == "zip-stored" else zipfile.ZIP_DEFLATED)
     if fam == "7z":
         return _7z(layout, members)
-    return _tar(members, {"tar": "w", "tar.gz": "w:gz", "tar.bz2": "w:bz2", "tar.xz": "w:xz"}[layout])
+    return _tar(members, {"tar": "w", "tar.gz": "w:gz", "tar.bz2": "w:bz2", "tar.xz": "w:xz"}[fam], TAR_FORMATS[tar_format(layout)])
 
 
 def _zip(members, method) -> bytes:
@@ -52,6 +65,8 @@ def _zip(members, method) -> bytes:
                 continue
             zi = zipfile.ZipInfo(name, date_time=(2024, 1, 2, 3, 4, 6))
             zi.external_attr = 0o100644 << 16
+            if m.get("attr") is not None:
+                zi.external_attr = m["attr"] & 0xFFFFFFFF
             if t == "symlink":
                 zi.external_attr = 0o120777 << 16
                 z.writestr(zi, m.get("link", "").encode(), zipfile.ZIP_STORED)
@@ -72,9 +87,9 @@ def _zip(members, method) -> bytes:
     return bytes(raw)
 
 
-def _tar(members, mode) -> bytes:
+def _tar(members, mode, fmt=tarfile.PAX_FORMAT) -> bytes:
     bio = io.BytesIO()
-    with tarfile.open(fileobj=bio, mode=mode, format=tarfile.PAX_FORMAT) as t:
+    with tarfile.open(fileobj=bio, mode=mode, format=fmt) as t:
         for m in members:
             ti = tarfile.TarInfo(m["name"])
             ti.mtime = 1704164646
@@ -98,6 +113,10 @@ def _tar(members, mode) -> bytes:
                 ti.type = tarfile.CHRTYPE
                 ti.devmajor, ti.devminor = 1, 3
                 t.addfile(ti)
+            elif ty == "blockdev":
+                ti.type = tarfile.BLKTYPE
+                ti.devmajor, ti.devminor = 8, 0
+                t.addfile(ti)
             else:
                 data = m.get("data") or b""
                 ti.size = len(data)
@@ -118,8 +137,8 @@ def _7z(layout: str, members) -> bytes:
     for m in members:
         ty = m.get("type", "file")
         if ty == "dir":
-            entries.append({"name": m["name"].rstrip("/"), "data": None})
+            entries.append({"name": m["name"].rstrip("/") if m.get("strip_slash", True) else m["name"], "data": None, "attr": m.get("attr")})
         elif ty == "file":
-            entries.append({"name": m["name"], "data": m.get("data") or b"", "phantom": bool(m.get("phantom"))})
+            entries.append({"name": m["name"], "data": m.get("data") or b"", "phantom": bool(m.get("phantom")), "attr": m.get("attr")})
         # links / devices have no 7z form in this writer
     return sevenz.make_7z(entries, coder=coder, layout=lay, encoded_header=enc, mixed_coders=mixed)
